@@ -277,3 +277,78 @@ pub fn gen_c08t(tier: Tier, seed: u64) -> Case {
     }
     thr_case("C08", seed, &g, program, threads, "thr-rmw".into())
 }
+
+/// C13 (THR part): several writer threads and fjall's own workers with an injected journal I/O error
+pub fn gen_c13t(tier: Tier, seed: u64) -> Case {
+    let mut r = Rng::stream(seed, "workload");
+    let n_names = r.range(1, 2) as usize;
+    let n_keys = r.range(2, 3) as usize;
+    let mut g = G::new(&mut r, n_names, n_keys, DbKind::Plain, false);
+    tiny_opts(&mut g);
+    g.cfg.rotation_threshold = *g.r.pick(&[512u64, 1024]);
+    g.cfg.journal_lz4 = false;
+    g.sizes = vec![100, 300, 600, 1000];
+    let program = setup(&mut g, n_names, 1);
+    let mut threads = vec![];
+    let scale = if tier == Tier::Quick { 1 } else { 2 };
+    for _ in 0..g.r.range(2, 3) {
+        let mut ops = vec![];
+        for _ in 0..g.r.range(3, 6 * scale) {
+            let ks = g.live_ks().unwrap();
+            ops.push(match g.r.below(10) {
+                0 | 1 | 2 | 3 | 4 => Op::Insert { ks, key: g.key(), val: g.val() },
+                5 => Op::Remove { ks, key: g.key() },
+                6 | 7 => g.batch(3, false),
+                8 => Op::Rotate { ks },
+                _ => Op::Persist { mode: Dur::Buffer },
+            });
+        }
+        threads.push(ops);
+    }
+    let kind = match g.r.below(3) {
+        0 => IoKind::Eio,
+        1 => IoKind::Enospc,
+        _ => IoKind::Short(g.r.below(900) as u32),
+    };
+    let target = match g.r.below(6) {
+        0 | 1 => IoTarget::JournalWrite,
+        2 => IoTarget::JournalSync,
+        3 | 4 => IoTarget::JournalCreate,
+        _ => IoTarget::JournalTruncate,
+    };
+    let n = g.r.range(1, 6) as u32;
+    let class = format!("thr-{:?}", target);
+    let mut c = thr_case("C13", seed, &g, program, threads, class);
+    c.fault = Fault::Io { kind, target, n: Some(n), persistent: g.r.chance(1, 2) };
+    c
+}
+
+/// C09 / C17 (THR part): is everything acknowledged power-loss durable at the instant the last
+/// handle's drop returns, whatever fjall's worker threads are doing at that moment?
+pub fn gen_c09t(tier: Tier, seed: u64) -> Case {
+    let mut r = Rng::stream(seed, "workload");
+    let n_names = r.range(1, 2) as usize;
+    let n_keys = r.range(2, 3) as usize;
+    let mut g = G::new(&mut r, n_names, n_keys, DbKind::Plain, false);
+    tiny_opts(&mut g);
+    g.sizes = vec![8, 100, 300];
+    let program = setup(&mut g, n_names, 1);
+    let mut threads = vec![];
+    let scale = if tier == Tier::Quick { 1 } else { 2 };
+    for _ in 0..g.r.range(1, 2) {
+        let mut ops = vec![];
+        for _ in 0..g.r.range(2, 5 * scale) {
+            let ks = g.live_ks().unwrap();
+            ops.push(match g.r.below(8) {
+                0 | 1 | 2 | 3 => Op::Insert { ks, key: g.key(), val: g.val() },
+                4 => Op::Remove { ks, key: g.key() },
+                5 => g.batch(3, false),
+                _ => Op::Rotate { ks },
+            });
+        }
+        threads.push(ops);
+    }
+    let mut c = thr_case("C09", seed, &g, program, threads, "thr-drop-durability".into());
+    c.fault = Fault::Power { points: Some(vec![]), variant: 0, vseed: seed };
+    c
+}
